@@ -555,7 +555,7 @@ pub fn run(tier: &str, rec: &Recorder) -> RunOutput {
     let start = Instant::now();
     let mut out = RunOutput::new("model_checking");
     let cap = wall_cap_s(tier);
-    let stages: Vec<(&'static str, usize)> = if tier == "quick" { vec![("mix2", 4), ("mixn3", 3), ("mix3", 2)] } else { vec![("full2", 5), ("mix3", 4), ("mixn3", 4)] };
+    let stages: Vec<(&'static str, usize)> = if tier == "quick" { vec![("mix2", 4), ("mixn3", 3), ("mix3", 2), ("mix2@alias", 3)] } else { vec![("full2", 5), ("mix3", 4), ("mixn3", 4), ("mix2@alias", 5), ("mixn3@alias", 4)] };
     let n_st = stages.len() as f64;
     let mut notes = vec![];
     let mut ex = true;
